@@ -4,7 +4,7 @@ from __future__ import annotations
 
 import ast
 
-from ..dataflow import derives
+from ..dataflow import derives, rd_of, resolve_local, resolve_name, return_values, expand_locals
 from ..loader import dotted, walk_no_nested
 from . import common_hbar as Hb
 
@@ -38,9 +38,14 @@ def hbar(ctx, rule="C20.hbar"):
     Hb.thewalrus_kw(ctx, rule, "apps/qchem/utils.py", {"marginals": {"mu": Hb.H, "V": Hb.O}})
     # A_to_cov scales with sf.hbar
     f = ctx.tree.func("apps/train/param.py", "A_to_cov")
-    rets = [n for n in walk_no_nested(f.node) if isinstance(n, ast.Return) and n.value is not None]
-    ok = bool(rets) and all(isinstance(r.value, ast.BinOp) and isinstance(r.value.op, ast.Mult) and
-                            any(dotted(s) in ("sf.hbar",) for s in (r.value.left, r.value.right)) for r in rets)
+    def factors(e):
+        if isinstance(e, ast.BinOp) and isinstance(e.op, (ast.Mult, ast.MatMult)):
+            return factors(e.left) + factors(e.right)
+        if isinstance(e, ast.BinOp) and isinstance(e.op, ast.Div):
+            return factors(e.left)
+        return [e]
+    rets = [expand_locals(f.node, v) for _, v in return_values(f.node)]
+    ok = bool(rets) and all(any(dotted(s) in ("sf.hbar", "hbar") for s in factors(v)) for v in rets)
     ctx.ob(rule, f.site, ok, "" if ok else "A_to_cov no longer returns sf.hbar * (...): its consumers pass hbar=sf.hbar to "
            "thewalrus, so the covariance must scale with hbar", role="cov-scales-with-hbar", line=f.node.lineno)
     ctx.floor(rule, 6)
@@ -89,9 +94,12 @@ def doktorov(ctx, rule="C20.doktorov"):
                 "per-mode index agreement; gbs_params hands back the SVD factors in the order the operation consumes.")
     op = ctx.tree.func(VIB, "VibronicTransition.<locals>.op")
     apps = _applied_ops(op.node)
-    kinds = [(cn, sorted({x.id for a in call.args for x in ast.walk(a) if isinstance(x, ast.Name)} - {"np", "i"}))
+    outer = ctx.tree.func(VIB, "VibronicTransition")
+    ppos = {p: k for k, p in enumerate(outer.pos_params)}
+    # which parameter of VibronicTransition(U1, r, U2, alpha) - by POSITION - feeds each applied operation
+    kinds = [(cn, sorted({ppos[x.id] for a in call.args for x in ast.walk(a) if isinstance(x, ast.Name) and x.id in ppos}))
              for cn, call, reg, line in apps]
-    ok = kinds == [("Interferometer", ["U1"]), ("Sgate", ["r"]), ("Interferometer", ["U2"]), ("Dgate", ["alpha"])]
+    ok = kinds == [("Interferometer", [0]), ("Sgate", [1]), ("Interferometer", [2]), ("Dgate", [3])]
     ctx.ob(rule, op.site, ok, "" if ok else f"operation order / parameters are {kinds}", role="order", line=op.node.lineno)
     for cn, call, reg, line in apps:
         _index_agreement(ctx, rule, op, cn, call, reg, line)
@@ -103,22 +111,34 @@ def doktorov(ctx, rule="C20.doktorov"):
         ctx.ob(rule, op.site, ok, "" if ok else "the displacement is not applied as Dgate(|alpha|, arg(alpha))", role="dgate-polar",
                line=dg[0].lineno)
     g = ctx.tree.func(VIB, "gbs_params")
-    rets = [n for n in walk_no_nested(g.node) if isinstance(n, ast.Return) and isinstance(n.value, ast.Tuple)]
+    rets = [v for _, v in return_values(g.node) if isinstance(v, ast.Tuple)]
     ok = False
     if rets:
-        names = [ast.unparse(e) for e in rets[0].value.elts]
-        ok = len(names) == 5 and names[1] == "U1" and names[3] == "U2" and "log" in names[2]
+        elts = [resolve_name(g.node, e) for e in rets[0].elts]
         svd = [n for n in walk_no_nested(g.node) if isinstance(n, ast.Assign) and isinstance(n.value, ast.Call)
-               and (dotted(n.value.func) or "").endswith("svd")]
-        ok = ok and bool(svd) and [ast.unparse(e) for e in svd[0].targets[0].elts] == ["U2", "s", "U1"]
+               and (dotted(n.value.func) or "").endswith("svd") and isinstance(n.targets[0], ast.Tuple) and len(n.targets[0].elts) == 3]
+        if svd and len(elts) == 5:
+            left, sing, right = [dotted(e) for e in svd[0].targets[0].elts]  # M = left @ diag(sing) @ right
+            d2 = derives(g.node, elts[2])
+            # Doktorov: U1 (applied first) is the right factor, U2 the left one, r = log of the singular values
+            ok = dotted(elts[1]) == right and dotted(elts[3]) == left and d2.has_call("np.log", "log") and \
+                any(dd.var == sing for dd in d2.defs)
     ctx.ob(rule, g.site, ok, "" if ok else "gbs_params does not return (t, U1, log s, U2, alpha) with U2, s, U1 = svd(...)",
            role="svd-order", line=g.node.lineno)
     # sample(): thermal two-mode squeezers pair mode i with i + n_modes; transition on the first n_modes
     s = ctx.tree.func(VIB, "sample")
     apps = _applied_ops(s.node)
     s2 = [(c, r) for cn, c, r, l in apps if cn == "S2gate"]
-    ok = bool(s2) and ast.unparse(s2[0][1]).replace(" ", "") in ("(q[i],q[i+n_modes])",) and \
-        any(cn == "VibronicTransition" and ast.unparse(r).replace(" ", "") == "q[:n_modes]" for cn, c, r, l in apps)
+    ok = False
+    if s2 and isinstance(s2[0][1], ast.Tuple) and len(s2[0][1].elts) == 2 and \
+            all(isinstance(e, ast.Subscript) and isinstance(e.value, ast.Name) for e in s2[0][1].elts):
+        e0, e1 = s2[0][1].elts
+        i0 = ast.unparse(e0.slice).replace(" ", "")
+        i1 = ast.unparse(e1.slice).replace(" ", "")
+        if e0.value.id == e1.value.id and isinstance(e0.slice, ast.Name) and i1.startswith(i0 + "+"):
+            half = i1[len(i0) + 1:]
+            ok = any(cn == "VibronicTransition" and ast.unparse(r).replace(" ", "") == f"{e0.value.id}[:{half}]"
+                     for cn, c, r, l in apps)
     ctx.ob(rule, s.site, ok, "" if ok else "sample() does not pair mode i with i + n_modes / apply the transition to the first "
            "n_modes modes", role="register-layout", line=s.node.lineno)
     ctx.floor(rule, 6)
